@@ -54,7 +54,14 @@ EVAL_CLAUSES = ["pomdp_wfb", "fsc_wfb", "abs_benign", "system_masked", "system_c
 LEARN_CLAUSES = ["pomdp_wfb", "rows_valid", "bounded", "contraction", "abs_benign", "system_masked", "system_code", "value_ok"]
 GAMMAS = ["1/2", "3/4", "9/10"]
 GAMMA_NEAR1 = "1048575/1048576"     # 1 - 2^-20
-KSTEPS = {"1/2": 16, "3/4": 20, "9/10": 20, "0": 2, GAMMA_NEAR1: 10}   # exact rationals grow with k: keep each term ~1 s
+KSTEPS = {"1/2": 16, "3/4": 20, "9/10": 20, "0": 2, GAMMA_NEAR1: 10, "19/20": 6, "1/3": 6, "7/10": 6}   # exact rationals grow with k: keep each term ~1 s
+# non-dyadic rows: float row sums are not exactly 1.0 (thirds, tenths, sevenths, ten tenths are never on the k/8 grid)
+NONDYADIC_ROWS = {
+    1: [["1"]],
+    2: [["1/3", "2/3"], ["1/10", "9/10"], ["3/7", "4/7"], ["7/10", "3/10"]],
+    3: [["1/3", "1/3", "1/3"], ["7/10", "1/5", "1/10"], ["1/7", "2/7", "4/7"], ["1/10", "1/5", "7/10"]],
+    4: [["1/10", "1/5", "3/10", "2/5"], ["1/3", "1/3", "1/6", "1/6"], ["1/7", "2/7", "3/7", "1/7"]],
+}
 LABEL_POOLS = {
     "int": [0, 1, 2, 3, 4, 5, 6],                       # 0 is a label; assigned in random (non-sorted) order
     "str": ["", "a", "B", "c1", "zz", "A b", "0"],      # "" is a label; upper/lower case sort apart
@@ -109,11 +116,24 @@ def _tiny_row(rng, n, allowed):
     sup = rng.sample(list(allowed), min(len(allowed), rng.randint(2, 3)))
     if len(sup) < 2:
         return _row(rng, n, support=sup)
-    ps = [F(1, 2 ** 30)] + ([F(1, 2 ** 20)] if len(sup) == 3 else [])
+    # 2^-27 .. 2^-50: all below np.isclose's default atol 1e-8; the complement 1 - 2^-e is still an exact double
+    ps = [F(1, 2 ** rng.choice([27, 30, 40, 50]))] + ([F(1, 2 ** 20)] if len(sup) == 3 else [])
     ps.append(1 - sum(ps))
     rng.shuffle(ps)
     row = [F(0)] * n
     for i, p in zip(sup, ps):
+        row[i] = p
+    return row
+
+
+def _nd_row(rng, n, allowed=None):
+    """non-dyadic distribution over range(n) (support inside allowed)"""
+    allowed = list(range(n)) if allowed is None else list(allowed)
+    k = rng.randint(1, min(4, len(allowed)))
+    vals = [F(x) for x in rng.choice(NONDYADIC_ROWS[k])]
+    rng.shuffle(vals)
+    row = [F(0)] * n
+    for i, p in zip(rng.sample(allowed, k), vals):
         row[i] = p
     return row
 
@@ -134,7 +154,7 @@ def gen_labels(rng, nS, nA, nO, kinds=None):
 
 
 def gen_pomdp(rng, abs_kind=None, smax=4, amax=3, omax=3, smin=1, amin=1, omin=1, unreach=False,
-              extremes=False, labels=False, near1=False, dense=False):
+              extremes=False, labels=False, near1=False, dense=False, nondyadic=False):
     """unreach: the POMDP is given to msdm with EXPLICIT _state_list/_action_list and has at least one state
     that cannot be reached from the initial distribution (with real dynamics and rewards of its own): the
     evaluator's table is checked at every (node, state) pair, reachable or not"""
@@ -170,15 +190,22 @@ def gen_pomdp(rng, abs_kind=None, smax=4, amax=3, omax=3, smin=1, amin=1, omin=1
                 elif dense:    # every transition row spreads over several states: the next state differs from the current one
                     T[s][a] = _row(rng, nS, support=rng.sample(list(allowed), min(3, len(allowed))))
                 else:
-                    T[s][a] = _tiny_row(rng, nS, allowed) if (extremes and rng.random() < .4) else _row_on(rng, nS, allowed)
+                    T[s][a] = (_nd_row(rng, nS, allowed) if nondyadic else
+                               _tiny_row(rng, nS, allowed) if (extremes and rng.random() < .4) else _row_on(rng, nS, allowed))
                 for t in range(nS):
                     if T[s][a][t] > 0 and rng.random() < .8:
                         Rw[s][a][t] = F(rng.randint(-16, 16), 4) if rng.random() < .3 else F(rng.randint(-4, 4))
+                        if nondyadic and rng.random() < .5:
+                            Rw[s][a][t] = rng.choice([F(1, 3), F(1, 10), F(-7, 3), F(22, 7), F(-1, 10)])
+                    if extremes and 0 < T[s][a][t] < F(1, 10 ** 8) and rng.random() < .5:
+                        # the tiny branch carries a reward ~ 1/p: it decides the value
+                        Rw[s][a][t] = rng.choice([-1, 1]) * F(2 ** 27)
             if absorbing[s] and abs_kind == "paying" and not paying_selfloop:
                 # make sure the terminal state really is non-benign
                 if all(Rw[s][a][t] == 0 for a in range(nA) for t in range(nS)) and all(T[s][a][s] == 1 for a in range(nA)):
                     Rw[s][0][s] = F(2)
-        Ob = [[(_tiny_row(rng, nO, range(nO)) if (extremes and rng.random() < .3) else _row(rng, nO)) for _ in range(nS)] for _ in range(nA)]
+        Ob = [[(_nd_row(rng, nO) if nondyadic else _tiny_row(rng, nO, range(nO)) if (extremes and rng.random() < .3) else _row(rng, nO))
+               for _ in range(nS)] for _ in range(nA)]
         if dense:
             # informative observations: every observation possible everywhere, rows differ between next states
             def peaked(t):
@@ -203,6 +230,10 @@ def gen_pomdp(rng, abs_kind=None, smax=4, amax=3, omax=3, smin=1, amin=1, omin=1
             scale = rng.choice([1, 1000, 10 ** 6])        # large reward magnitudes
             Rw = [[[x * scale for x in row] for row in sa] for sa in Rw]
         s0 = _row_on(rng, nS, live_set) if unreach else _row(rng, nS)
+        if nondyadic:
+            s0 = _nd_row(rng, nS, live_set)
+        elif extremes and rng.random() < .5 and len(live_set) >= 2:
+            s0 = _tiny_row(rng, nS, live_set)        # an initial state with probability 2^-27 .. 2^-50
         if unreach:
             if _reachable(nS, nA, T, absorbing, s0) == set(range(nS)):
                 continue
@@ -217,10 +248,13 @@ def gen_pomdp(rng, abs_kind=None, smax=4, amax=3, omax=3, smin=1, amin=1, omin=1
         gamma = rng.choice(GAMMAS)
         if extremes:
             gamma = rng.choice(["0", "0", GAMMA_NEAR1 if near1 else "9/10", "1/2"])
+        if nondyadic:
+            gamma = rng.choice(["9/10", "19/20", "1/3", "7/10"])
         st = lambda x: [st(y) for y in x] if isinstance(x, list) else str(x)
         return {"nS": nS, "nA": nA, "nO": nO, "T": st(T), "Rw": st(Rw), "Ob": st(Ob),
                 "absorbing": absorbing, "s0": st(s0), "gamma": gamma, "abs_kind": abs_kind,
-                "explicit_lists": bool(unreach), "extremes": bool(extremes), "gamma_int": bool(extremes and gamma == "0" and rng.random() < .5),
+                "explicit_lists": bool(unreach), "extremes": bool(extremes or nondyadic), "nondyadic": bool(nondyadic),
+                "shared_objects": rng.random() < .5, "int_rewards": rng.random() < .3, "gamma_int": bool(extremes and gamma == "0" and rng.random() < .5),
                 "labels": gen_labels(rng, nS, nA, nO) if labels else None,
                 "unreachable": sorted(set(range(nS)) - _reachable(nS, nA, T, absorbing, s0))}
     raise RuntimeError("gen_pomdp: no case")
@@ -234,9 +268,22 @@ def gen_fsc(rng, nA, nO, style=None, nmax=3, om3=False):
         style = rng.choice(["generic", "generic", "generic", "onehot_init", "shared", "det"])
     N = rng.randint(2 if style in ("generic", "onehot_init") and rng.random() < .8 else 1, nmax)
     onehot = lambda i, n: [F(int(j == i)) for j in range(n)]
+    def tiny_pi_row():
+        # an action (or node) weight of 2^-27 .. 2^-40: far below 1e-8, yet a history through it has positive probability
+        if nA < 2:
+            return _row(rng, nA)
+        e = rng.choice([27, 30, 40])
+        sup = rng.sample(range(nA), 2)
+        row = [F(0)] * nA
+        row[sup[0]], row[sup[1]] = F(1, 2 ** e), 1 - F(1, 2 ** e)
+        return row
     if style == "shared":
         r = _row(rng, nA)
         pi = [list(r) for _ in range(N)]
+    elif style == "tiny":
+        pi = [(tiny_pi_row() if rng.random() < .7 else _row(rng, nA)) for _ in range(N)]
+    elif style == "nondyadic":
+        pi = [_nd_row(rng, nA) for _ in range(N)]
     else:
         pi = [_row(rng, nA) for _ in range(N)]
     o3 = None
@@ -245,9 +292,18 @@ def gen_fsc(rng, nA, nO, style=None, nmax=3, om3=False):
         om = [[[list(o3[n][o]) for o in range(nO)] for _ in range(nA)] for n in range(N)]
     elif style == "det":
         om = [[[onehot(rng.randrange(N), N) for _ in range(nO)] for _ in range(nA)] for _ in range(N)]
+    elif style == "nondyadic":
+        om = [[[_nd_row(rng, N) for _ in range(nO)] for _ in range(nA)] for _ in range(N)]
     else:
         om = [[[_row(rng, N) for _ in range(nO)] for _ in range(nA)] for _ in range(N)]
-    if style in ("det", "onehot_init"):
+    if style == "nondyadic":
+        init = _nd_row(rng, N)
+    elif style == "tiny" and N >= 2 and rng.random() < .5:
+        e = rng.choice([27, 30, 40])
+        sup = rng.sample(range(N), 2)
+        init = [F(0)] * N
+        init[sup[0]], init[sup[1]] = F(1, 2 ** e), 1 - F(1, 2 ** e)
+    elif style in ("det", "onehot_init"):
         init = onehot(rng.randrange(N), N)
     else:
         init = _row(rng, N, support=rng.sample(range(N), min(N, rng.randint(2, 3))))   # non-degenerate when N >= 2
@@ -374,7 +430,15 @@ def gen_cases(rng, tier):
             cases.append({"kind": "eval", "pomdp": pc, "fsc": fc, "hist_len": 2, "runs": 4, "run_seed": rng.randrange(10 ** 6), "max_steps": 6,
                           "om_form": "4d", "eval_dtype": "float64"})
             continue
-        if form3:
+        if i % 9 == 4:
+            # controller rows / initial node weights of 2^-27 .. 2^-40 (k/8 elsewhere: the object's arithmetic stays exact)
+            pc = gen_pomdp(rng, amin=2, labels=labels, extremes=extremes, near1=not f32)
+            fc = gen_fsc(rng, pc["nA"], pc["nO"], style="tiny")
+        elif i % 9 == 7:
+            # non-dyadic numbers everywhere (thirds, tenths, sevenths): float rows do not sum to exactly 1.0
+            pc = gen_pomdp(rng, labels=labels, nondyadic=True)
+            fc = gen_fsc(rng, pc["nA"], pc["nO"], style="nondyadic")
+        elif form3:
             pc = gen_pomdp(rng, amin=2, omin=2, smin=2, labels=labels, extremes=extremes, near1=not f32)
             fc = gen_fsc(rng, pc["nA"], pc["nO"], om3=True, style=rng.choice(["generic", "generic", "onehot_init", "det"]))
             if fc["N"] == 1:      # one node: every broadcast is the same
@@ -386,8 +450,12 @@ def gen_cases(rng, tier):
         else:
             pc = gen_pomdp(rng, labels=labels, extremes=extremes, near1=not f32)
             fc = gen_fsc(rng, pc["nA"], pc["nO"])
-        cases.append({"kind": "eval", "pomdp": pc, "fsc": fc, "hist_len": 3, "runs": 4, "run_seed": rng.randrange(10 ** 6), "max_steps": 6,
-                      "om_form": "3d" if form3 else "4d", "eval_dtype": "float32" if f32 else "float64"})
+        c = {"kind": "eval", "pomdp": pc, "fsc": fc, "hist_len": 3, "runs": 4, "run_seed": rng.randrange(10 ** 6), "max_steps": 6,
+             "om_form": "3d" if (form3 and "om3" in fc) else "4d", "eval_dtype": "float32" if f32 else "float64",
+             "int_object": fc["style"] == "det"}
+        if i % 18 == 5:
+            c["long_run"] = 1500          # an episode far beyond 1000 steps
+        cases.append(c)
     n_bpi = 10 if tier == "quick" else 90
     for i in range(n_bpi):
         kind = ["none", "none", "benign", "paying"][i % 4] if tier == "quick" else rng.choice(["none", "none", "benign", "paying"])
@@ -404,6 +472,8 @@ def gen_cases(rng, tier):
              "runs": 4, "run_seed": rng.randrange(10 ** 6), "max_steps": 5}
         if i % 3 == 1 and "domain" not in pc:
             c["pomdp_prev"] = _same_shape_pomdp(rng, pc, **kw)      # the learner object is first trained on this one
+            if i % 6 == 4:     # ... or on one of ANOTHER size with other labels
+                c["pomdp_prev"] = gen_pomdp(rng, smin=3, smax=4, amin=2, amax=3, omin=1, omax=3, labels=True)
         cases.append(c)
     # BPI sweeps: multi-node starts on POMDPs whose transitions move between states with different (informative)
     # observation rows, 8 iterations, and EVERY stopping point k = 0..8 of the same run (iterations=k is a prefix of
@@ -433,6 +503,8 @@ def gen_cases(rng, tier):
             c["log_iteration_progress"] = 1
         if i % 3 == 2:
             c["pomdp_prev"] = _same_shape_pomdp(rng, pc, **kw)
+            if i % 6 == 5:
+                c["pomdp_prev"] = gen_pomdp(rng, smin=3, smax=4, amin=2, amax=3, omin=1, omax=3, labels=True)
         cases.append(c)
     return cases
 
@@ -591,18 +663,35 @@ def run(ctx):
             report("C09:harness:index-lists-unexpected", {"case": case, "lists": {k: res.get(k) for k in ("state_list", "action_list", "observation_list", "shape")}}, found=False)
             continue
         mpcs[i] = pc
+        if res.get("mutated"):
+            report("C09:caller-objects-mutated", {"case": case, "what": res["mutated"],
+                                                  "clause": "evaluating / executing / learning must not change the POMDP definition or the strategies it was given"}, found=True)
+        if res.get("first_result_changed"):
+            report("C09:%s:first-result-changed-by-second-training" % case["kind"], {"case": case}, found=True)
         feats["abs_" + pc["abs_kind"]] += 1
         feats["explicit_lists_with_unreachable_states"] = feats.get("explicit_lists_with_unreachable_states", 0) + int(bool(pc.get("unreachable")))
         for key, val in (("labelled", bool(gpc.get("labels"))), ("order_differs_from_generator", bool(pc.get("perm")) and any(p != sorted(p) for p in pc["perm"])),
                          ("bundled_domain", "domain" in gpc), ("gamma_0", pc["gamma"] == "0"), ("gamma_int", bool(gpc.get("gamma_int"))),
                          ("gamma_near_1", pc["gamma"] == GAMMA_NEAR1), ("reused_learner", bool(case.get("pomdp_prev"))),
                          ("seed_0", case.get("seed") == 0), ("iterations_0", case.get("iterations") == 0),
+                         ("nondyadic", bool(gpc.get("nondyadic"))), ("shared_mutable_definition_objects", bool(gpc.get("shared_objects"))),
+                         ("int_rewards", bool(gpc.get("int_rewards"))), ("long_episode_1500", bool(case.get("long_run"))),
+                         ("int_table_controller", res.get("hist_int2") is not None),
+                         ("reused_learner_other_size", bool(case.get("pomdp_prev")) and "domain" not in gpc and case["pomdp_prev"]["nS"] != gpc.get("nS")),
+                         ("first_result_reread_after_second_training", "first_result_changed" in res),
+                         ("tiny_T_or_O_or_s0_entries", "domain" not in gpc and any(0 < F(x) < F(1, 10 ** 8) for blk in (gpc["T"], gpc["Ob"]) for sa in blk for row in sa for x in row) or ("domain" not in gpc and any(0 < F(x) < F(1, 10 ** 8) for x in gpc["s0"]))),
+                         ("tiny_initial_state_entry", "domain" not in gpc and any(0 < F(x) < F(1, 10 ** 8) for x in gpc["s0"])),
+                         ("reward_2^27_on_tiny_branch", "domain" not in gpc and any(abs(F(x)) >= 2 ** 27 for sa in gpc["Rw"] for row in sa for x in row)),
+                         ("one_state", pc["nS"] == 1), ("one_action", pc["nA"] == 1), ("one_observation", pc["nO"] == 1),
+                         ("states_eq_actions", pc["nS"] == pc["nA"]),
                          ("improve_fn_" + str(case.get("improve_fn")), case["kind"] == "bpi")):
             feats[key] = feats.get(key, 0) + int(val)
         pt = pomdp_term(pc)
         if case["kind"] == "eval":
             fc = case["fsc"]
-            feats["fsc_" + fc["style"]] += 1
+            feats["fsc_" + fc["style"]] = feats.get("fsc_" + fc["style"], 0) + 1
+            feats["fsc_tiny_action_or_node_weight"] = feats.get("fsc_tiny_action_or_node_weight", 0) + int(
+                any(0 < F(x) < F(1, 10 ** 8) for row in fc["pi"] + [fc["init"]] for x in row))
             feats["nodes_%s" % (fc["N"] if fc["N"] < 3 else "3plus")] += 1
             pi, om, init = fr(fc["pi"]), fr(fc["om"]), fr(fc["init"])
             ft = fsc_term(fc["N"], pi, om, init)
@@ -616,7 +705,13 @@ def run(ctx):
             else:
                 sc = scale_of(evr["V"])
                 f32 = case.get("eval_dtype") == "float32"
-                tol, vtol, M = (F(1, 10 ** 3) if f32 else F(1, 10 ** 9)) * sc, (F(1, 10 ** 3) if f32 else F(1, 10 ** 9)) * sc, sc
+                # float64: the explicit inverse is accurate to ~ n * eps * cond, cond <= 2/(1-gamma): residual tolerance
+                # 1e-13/(1-gamma) relative to the table's scale (never above the former blanket 1e-9); the expected
+                # value is two short dot products: 1e-12 relative.  float32: 1e-3.
+                g_ = F(pc["gamma"])
+                tol = (F(1, 10 ** 3) if f32 else min(F(1, 10 ** 9), F(1, 10 ** 13) / (1 - g_))) * sc
+                vtol = (F(1, 10 ** 3) if f32 else F(1, 10 ** 12)) * sc
+                M = sc
                 forms["%s/%s" % (case.get("om_form", "4d"), case.get("eval_dtype", "float64"))] = forms.get("%s/%s" % (case.get("om_form", "4d"), case.get("eval_dtype", "float64")), 0) + 1
                 k = KSTEPS[pc["gamma"]]
                 if gpc.get("extremes"):
@@ -634,6 +729,10 @@ def run(ctx):
                     report("C09:controller:tensor-controller-differs-from-array-controller",
                            {"case": case, "tensor": ht if isinstance(ht, dict) else None,
                             "clause": "the same controller gives two different probabilities to a history"}, found=True)
+            hi2 = res.get("hist_int2")
+            if hi2 is not None and (case.get("hist_len", 3) >= 2 and hi2 != res["hist"]["2"]):
+                report("C09:controller:integer-table-controller-differs-from-float-controller",
+                       {"case": case, "clause": "the same (deterministic) controller gives two different probabilities to a history"}, found=True)
             why = check_runs(case, res, pc, [vlib.fjson(float(vlib.frac(x))) for x in fc["init"]])
             nruns += 1
             if why:
@@ -825,11 +924,14 @@ def run(ctx):
                     break
                 for h, rr, mm, ss in zip(hs, real, mir, spec):
                     mm, ss = unq(mm), unq(ss)
-                    if rr != mm and bad_mirror is None:
+                    # mirror (explanatory only): exact on the k/8 grid; with 2^-e weights or non-dyadic rows the object's
+                    # double arithmetic rounds (relative 1e-16), so "same as the mirror" means equal up to 1e-12 relative
+                    same_m = (rr == mm) if fc["style"] not in ("tiny", "nondyadic") else (rr is not None and abs(rr - mm) <= F(1, 10 ** 12) * max(abs(rr), abs(mm)))
+                    if not same_m and bad_mirror is None:
                         bad_mirror = {"history": h, "object": str(rr), "mirror": str(mm), "semantics": str(ss)}
-                    # the property: object probability = controller semantics (exact on the k/8 grid; a
-                    # normalising implementation may round: 1e-12 slack)
-                    if (rr is None or abs(rr - ss) > F(1, 10 ** 12)) and (bad_spec is None or rr is None or abs(rr - ss) > bad_spec["_d"]):
+                    # the property: object probability = controller semantics (exact on the k/8 grid; a normalising
+                    # implementation may round: 1e-12 RELATIVE slack, so that a history of probability 2^-40 counts too)
+                    if (rr is None or abs(rr - ss) > F(1, 10 ** 12) * max(abs(rr), abs(ss))) and (bad_spec is None or rr is None or abs(rr - ss) > bad_spec["_d"]):
                         bad_spec = {"history": h, "object_probability": str(rr), "controller_semantics_probability": str(ss),
                                     "_d": abs(rr - ss) if rr is not None else F(1)}
             if bad_spec:
